@@ -156,6 +156,10 @@ impl Path {
     }
 
     pub(crate) fn set_max_branches(&mut self, max_branches: usize) {
+        // The branch limit is the capacity of `branches`. A path that was
+        // deserialized from a checkpoint comes with whatever capacity the
+        // growth of the vector left behind, which may exceed `max_branches`.
+        self.branches.shrink_to_fit();
         self.branches
             .reserve_exact(max_branches - self.branches.len());
     }
